@@ -369,10 +369,15 @@ def run(tier: str, seed: int) -> core.Report:
                        "async callbacks of the harness park at a gate; a cancelled async callback re-raises the backend's cancellation exception",
                        "cancellation exceptions are exempt from the grouped clause (trio collapses all-cancelled groups); member order inside the group is not checked",
                        "callbacks that swallow cancellation are not generated"]
+    from .. import suitectx
+    suitectx.add_to(rep, PROP)
     return rep
 
 
 def replay(scenario):
+    if "recorded" in scenario:
+        from .. import suitectx
+        return suitectx.replay(PROP, scenario)
     if "suite_test" in scenario:
         st = [t for t in suite_traces() if t["id"] == scenario["suite_test"]]
         verd, _, _ = core.validate_traces("Trace_C01", st)
